@@ -101,6 +101,63 @@ def run(cx):
     step = 4000
     for lo in range(0, len(cases), step):
         process(cx, all_schemas, cases[lo:lo + step], lo)
+    operations(cx, cases)
+
+
+def operations(cx, cases):
+    """the same data definitions as rpc input / rpc output / notification content: libyang's verdict (lyd_parse_op +
+    lyd_validate_op, XML and JSON) against the specification evaluated on the all-state variant of the schema (inside an operation
+    the config statement is ignored: duplicate leaf-list values and key-less list instances are legal, everything else holds)"""
+    rng = cx.sub_rng("ops")
+    pick = [c for c in cases if getattr(c.s, "yang", None) and not isinstance(c.s, vc.ReplaySchema)
+            and c.kind not in ("state-node", "missing-key") and not any(getattr(n, "when", None) for n in c.s.nodes)]
+    rng.shuffle(pick)
+    pick = pick[:cx.n(1500, 12000)]
+    cx.rule("ops: %d of the instances above (valid and singly mutated) sent as rpc input, rpc output (reply) and notification content, XML "
+            "and JSON, plus a leaf of the other direction put into input / output (placement)" % len(pick))
+    variants, lines, specl, info = {}, [], [], {}
+    for k, c in enumerate(pick):
+        s2 = variants.get(id(c.s))
+        if s2 is None:
+            s2 = variants[id(c.s)] = vg.state_variant(c.s)
+        place = rng.choice([None, None, "ok", "swap"])
+        extra = [None, None]
+        if place:
+            extra = ["zzin", "zzout"] if place == "ok" else ["zzout", "zzin"]
+        din, dout = vg.op_docs(c.s, c.t, extra[0]), vg.op_docs(c.s, c.t, extra[1])
+        docs = din[0:2] + dout[2:4] + din[4:6]
+        lines.append("o%d %s ops %s %s" % (k, COMP, tg.hx(vg.op_module(c.s).encode()), " ".join(tg.hx(d) for d in docs)))
+        specl.append("o%d %s spec %s %s 0 %s" % (k, COMP, tg.hx(s2.dsl()), tg.hx(s2.xdsl()), tg.tok(c.t)))
+        info[k] = (c, place, docs)
+    if not lines:
+        return
+    rep = cx.run_impl(HARNESS, lines, component=COMP, env=vc.ENV)
+    spec = cx.run_model(vc.heads(list(variants.values())) + specl)
+    for k, (c, place, docs) in info.items():
+        r, sp = rep.get("o%d" % k, ["err", "NoReply"]), spec.get("o%d" % k, ["err", "NoReply"])
+        if r[0] != "ok" or sp[0] != "ok":
+            if r[:2] != ["err", "Crash"]:
+                cx.fail(COMP, "ops: no verdict (%s / %s)" % (" ".join(r[:2]), " ".join(sp[:3])), payload(c, "ops-harness", module=vg.op_module(c.s)))
+            continue
+        viol = set(sp[2:])
+        for i, f in enumerate(r[1:]):
+            name, res = f.split("=", 1)
+            misplaced = place == "swap" and not name.startswith("notif")
+            want = not viol and not misplaced
+            cx.count(("ops", c.s.name, tg.tok(c.t), name, place), True, "ops:%s:%s%s" % (name.split(".")[0], "valid" if not viol else "invalid", ":misplaced-leaf" if misplaced else ""))
+            if (res[0] == "V") != want:
+                what = ("libyang accepts %s that violates the schema (%s)" % ("{}", ",".join(sorted(viol) or ["a node of the other direction"]))) if res[0] == "V" \
+                    else "libyang rejects %s that satisfies every constraint of the schema"
+                kind = {"in": "an rpc input", "out": "an rpc output", "notif": "a notification"}[name.split(".")[0]]
+                cx.fail(COMP, what.format(kind) if "{}" in what else what % kind,
+                        payload(c, "ops-iff", route=name, spec=sorted(viol), got=res[:300], doc=docs[i].decode("utf-8", "replace")[:3000],
+                                module=vg.op_module(c.s), placement=place))
+            elif res[0] != "V" and viol and not misplaced:
+                kd = vc.dec_err(res[2:].split(";")[0])[0]
+                if kd not in viol and not (kd == "NoKey" and "BadValue" in viol):
+                    cx.fail(COMP, "ops: the reported error (%s) is not a constraint the %s violates (%s)" % (kd, name, ",".join(sorted(viol))),
+                            payload(c, "ops-tag", route=name, spec=sorted(viol), got=res[:300], doc=docs[i].decode("utf-8", "replace")[:3000],
+                                    module=vg.op_module(c.s)))
 
 
 def load_corpus(cx):
